@@ -8,6 +8,14 @@
     families whose fold angles sweep a grid on both sides of 60 deg and acos(0.8), every way of declaring
     hard edges, options only_border x flag_corners x corner_order, detector run once, twice, and after
     another detector; reference = exact rational classification of every edge (mc/c15_lib.py).
+(c) border extraction is a pure query: on a sub-family of (a), every ordered pair (x, y) of the four entry points
+    (default start, given start, all cycles, polyline) is played as the history x, y, x, y on ONE mesh object; every
+    answer is judged like in (a) and the border / interior containers and element arrays of the mesh must still
+    describe the face list after every call. Every border vertex is also given as starting point in every integer
+    form (numpy signed / unsigned scalars of several widths, a subclass of int).
+(d) a detector describes the surface it is run on: ONE FeatureEdgeDetector object run on surface A and then on
+    surface B for every ordered pair of small families (same face list with other fold angles, and surfaces with other
+    numbers of vertices / edges / faces), B being another mesh object or the same object after its vertices moved.
 """
 from __future__ import annotations
 import math
@@ -21,7 +29,10 @@ TECHNIQUE = ("bounded-exhaustive enumeration of input meshes x option vectors x 
 RULE = ("border: one case = (labelled manifold face list, sort_neighborhoods); every border vertex is used as "
         "starting point, plus extract_border_cycle_all and extract_boundary_of_surface; non-trivial = the mesh has "
         "a border. features: one case = (mesh with given fold angles, hard-edge declaration, option vector, "
-        "previous-run state); non-trivial = the mesh has an interior edge or a border")
+        "previous-run state); non-trivial = the mesh has an interior edge or a border. histories: one case = (mesh, "
+        "sort_neighborhoods, ordered pair of border entry points) played twice on one mesh object, and (mesh, border vertex, "
+        "integer form of the starting point). detector re-use: one case = (ordered pair of surfaces that differ in the band of "
+        "an edge or in their face list, other mesh object | same object deformed, declaration, options)")
 ASSUMPTIONS = [
     "inputs are oriented manifold polygon complexes (checked by mc.families.is_oriented_manifold) with planar, "
     "non-degenerate faces; mesh.edges is taken as the edge numbering (construction is C02's subject)",
@@ -33,15 +44,24 @@ ASSUMPTIONS = [
     "or polyline->mesh as documented); the 'component' attribute of the polyline is outside the statement (observed only)",
     "hash seeds are not enumerated: the code under test only iterates over sets of ints (order independent of PYTHONHASHSEED)",
     "vertex_to_edges (C01) is the reference frame of the local feature-edge indices",
+    "history / argument-form / detector-re-use clauses report only answers that differ from the answer of the same call on a "
+    "fresh mesh with a python int / of a fresh detector on a fresh mesh (those answers are judged by the base clauses); "
+    "histories are bounded to x,y,x,y over the four border entry points with one given starting point (last vertex of the last loop)",
+    "detector re-use is exercised on meshes that carry no persistent 'normals' face attribute (with one, the detector "
+    "documentedly reads it); vertices are moved through mesh.vertices[i] = Vec",
 ]
 BOUNDS = {
     "quick": "border: SURF triangles n<=5 all labelled (434), tri+quad n=4 all, n=5 <=4 faces, pentagons, SURF(6) classes (28), face-listing deviations <=1 on n<=4, "
              "holey grids 3x3 tri/quad all, 4x4 quad all (320), 4x4 tri <=3 removed, full grids, swiss (4 loops), ZOO; "
              "features: hinge x 91 angles (20 per side of each threshold) x sign x 10 declarations x 12 options, "
-             "accordions with 1-2 folds, cones/bipyramids, SURF(<=5) on the moment curve, ZOO, non-convex flat quads",
+             "accordions with 1-2 folds, cones/bipyramids, SURF(<=5) on the moment curve, ZOO, non-convex flat quads; "
+             "histories + 5 integer forms of every border start: SURF triangles n<=4, tri+quad n=4, pentagons, SURF(6) classes, holey 3x3, grids, swiss, ZOO "
+             "(209 meshes x 2 sorts x 16 histories of 4 calls); detector re-use: all ordered pairs of 5 hinges, 4 accordions, 6 cones/bipyramids, "
+             "7 surfaces of different sizes x 2-3 declarations x 2-3 options (1008 cases)",
     "thorough": "border: + SURF(6) all labelled (12934), face-listing deviations <=1 on triangles n=5, tri+quad n=5 <=5 faces (2612), holey 3x4 tri all (743), 4x5 quad all, "
                 "4x4 tri <=5 removed, 4x4 mixed <=4 removed, 5x5 quad <=3 removed, 3x3 mixed all; features: + hinge shapes/orientations x 40 per side, accordions with 2 folds (all 72 angle "
-                "pairs x 4 modes x 2 widths) and 3 folds (54 angle triples x 2 sign patterns x 2 modes), all 12 options, all cones/bipyramids, SURF(6) all labelled, previous-run states on every family",
+                "pairs x 4 modes x 2 widths) and 3 folds (54 angle triples x 2 sign patterns x 2 modes), all 12 options, all cones/bipyramids, SURF(6) all labelled, previous-run states on every family; "
+                "histories / integer forms: + SURF triangles n=5, face-listing deviations n=4, holey 4x4 quad, 3x4 tri; detector re-use: 11 hinges, 9 accordions x 3 modes, 9 surfaces of different sizes, more options",
 }
 
 OPTS_ALL = [[ob, fc, co] for ob in (False, True) for fc in (True, False) for co in (4, 2, 6)]
@@ -216,6 +236,46 @@ def _feature_plan(tier):
     return plan
 
 
+def _history_inputs(ins, tier):
+    """Sub-family of the border inputs on which call histories and argument forms are enumerated."""
+    pre = ["tri3#", "tri4#", "mix4#", "pent5#", "tri6c#", "holey3x3", "grid", "swiss", "octahedron", "tetrahedron_surface",
+           "cube_quads", "csaszar_torus", "icosahedron", "annulus", "torus"]
+    if tier != "quick":
+        pre += ["tri5#", "holey4x4quad", "holey3x4tri", "dev4#"]
+    return [x for x in ins if any(x[0].startswith(p) for p in pre)]
+
+
+def _reuse_plan(tier):
+    """list of (family, surfaces, declarations, options): every ORDERED pair of surfaces of one entry is played."""
+    q = tier == "quick"
+    mid = 0.5 * (L.TH37 + L.TH60)
+    plan = []
+    ang = [0.15, mid, math.pi / 2, 2.6, -math.pi / 2] if q else \
+          [0.0, 0.15, L.TH37 - 0.02, L.TH37 + 0.02, mid, L.TH60 - 0.02, L.TH60 + 0.02, math.pi / 2, 2.6, -mid, -math.pi / 2]
+    hs = [[f"hinge:{a:.4f}", *L.hinge(a)] for a in ang]
+    plan.append(("reuse_hinge", hs, DECL_MIN + [["sparse_false", "odd"]], OPTS_MIN if q else OPTS_MID))
+    A3 = [L.TH37 + 0.02, L.TH60 - 0.02, L.TH60 + 0.02]
+    pairs = [(0, 0), (2, 0), (1, 2), (2, 2)] if q else [(a, b) for a in range(3) for b in range(3)]
+    for mode in (("tri",) if q else ("tri", "quad", "mixed")):
+        acc = [[f"acc4x2{mode}:{a}{b}", *L.accordion(4, 2, mode, [A3[a], -A3[b]])] for a, b in pairs]
+        plan.append(("reuse_accordion", acc, [["raw", "none"], ["raw", "even"]], OPTS_MIN[:2] if q else OPTS_MIN))
+    cones = [[f"cone{k}:{h}", *L.cone(k, h)] for k, h in ((4, 0.5), (4, 5), (5, 0.5), (5, 2))]
+    cones += [[f"bipyr4:{h}:{b}", *L.cone(4, h, b)] for h, b in ((0.5, 0.5), (2, 0.5))]
+    plan.append(("reuse_cone", cones, [["raw", "none"], ["raw", "odd"]], OPTS_MIN[:2] + [[False, True, 6]]))
+    # surfaces with different numbers of vertices / edges / faces, in both orders
+    mixed = [["hinge:right", *L.hinge(math.pi / 2)], ["acc3x2quad", *L.accordion(3, 2, "quad", [1.2])],
+             ["acc4x3mixed", *L.accordion(4, 3, "mixed", [1.2, -0.2])], ["cone3:1", *L.cone(3, 1)]]
+    for name in ("octahedron", "cube_quads"):
+        p, f = getattr(F, name)(); mixed.append([name, p, f])
+    p, f = F.grid(3, 3, "tri"); mixed.append(["flat3x3tri", p, f])
+    if not q:
+        p, f = F.icosahedron(); mixed.append(["icosahedron", p, f])
+        p, f = L.swiss("quad"); mixed.append(["swissquad", p, f])
+    mixed = [[nm, [list(map(float, x)) for x in p], [list(x) for x in f]] for nm, p, f in mixed]
+    plan.append(("reuse_mixed", mixed, DECL_MIN, OPTS_MIN[:2] if q else OPTS_MIN))
+    return plan
+
+
 def _selftest():
     """The reference against brute-force facts on tiny inputs (a failure is a harness error, never a pass)."""
     for deg, want in ((20, "<37"), (36.8, "<37"), (36.87, "near37"), (36.95, "37-60"), (59.9, "37-60"), (60.0, "near60"),
@@ -250,6 +310,13 @@ def tasks(tier):
             out.append({"kind": "border", "sort": sort, "meshes": small[i:i + bs]})
         for i in range(0, len(big), bb):
             out.append({"kind": "border", "sort": sort, "meshes": big[i:i + bb]})
+    hist = _history_inputs(ins, tier)
+    for sort in (True, False):
+        for i in range(0, len(hist), 6):
+            out.append({"kind": "border_hist", "sort": sort, "meshes": hist[i:i + 6]})
+    for fam, meshes, decls, opts in _reuse_plan(tier):
+        for sort in ((True, False) if fam == "reuse_mixed" else (True,)):
+            out.append({"kind": "feat_reuse", "family": fam, "sort": sort, "meshes": meshes, "decls": decls, "opts": opts})
     for fam, meshes, decls, opts, prevs, batch in _feature_plan(tier):
         for sort in (True, False):
             if not sort and fam in ("hinge_fine", "surf6"):
@@ -451,6 +518,206 @@ def _judge_polyline(value, m, bverts, bedges, rep):
     return why
 
 
+# ------------------------------------------------------------------------------------------ border: histories, forms
+EVENTS = ("cycle_default", "cycle_start", "cycle_all", "polyline")
+_CALLEE = {"cycle_default": "extract_border_cycle", "cycle_start": "extract_border_cycle",
+           "cycle_all": "extract_border_cycle_all", "polyline": "extract_boundary_of_surface"}
+START_FORMS = ("np.int64", "np.int32", "np.intp", "np.uint16", "int_subclass")
+
+
+class _Index(int):
+    """a user-defined subclass of int (e.g. an IntEnum member / a typed index)"""
+
+
+def _make_start(form, s):
+    import numpy as np
+    if form == "int_subclass":
+        return _Index(s)
+    return getattr(np, form[3:])(s)
+
+
+def _form_class(x):
+    import numpy as np
+    if isinstance(x, np.integer):
+        return "numpy-integer:" + ("unsigned" if isinstance(x, np.unsignedinteger) else "signed")
+    return "int-subclass" if type(x) is not int else "int"
+
+
+class _BorderRef:
+    """what the statement says about one face list, from the raw faces only (+ the mesh's own edge numbering)"""
+
+    def __init__(self, n, faces, E):
+        self.loops = F.border_loops(faces)
+        self.loop_of = {v: i for i, l in enumerate(self.loops) for v in l}
+        self.bverts = sorted(self.loop_of)
+        self.interior = [v for v in range(n) if v not in self.loop_of]
+        self.bedges = set(_norm(a, b) for a, b in F.border_half_edges(faces))
+        self.eid = {e: i for i, e in enumerate(E)}
+        self.bedge_ids = sorted(self.eid[e] for e in self.bedges)
+        self.iedge_ids = sorted(set(range(len(E))) - set(self.bedge_ids))
+
+
+def _verdict_cycle(o, start, ref):
+    """None | (kind, detail) for one answer of extract_border_cycle(mesh[, start]); start None = default."""
+    if not o.ok:
+        return exc_kind(o), {"msg": o.msg}
+    r = o.value
+    if not ref.loops:
+        if not (len(r) == 0 or (len(r) == 2 and len(r[0]) == 0 and len(r[1]) == 0)):
+            return "mismatch:cycle_on_closed_mesh", {"got": repr(r)}
+        return None
+    if not (isinstance(r, (tuple, list)) and len(r) == 2):
+        return "mismatch:result_shape", {"got": repr(r)}
+    vb, eb = _as_int_list(r[0]), [None if x is None else int(x) for x in r[1]]
+    j = _judge_walk(vb, start, ref.loop_of, ref.loops, ref.bedges)
+    if j:
+        return "mismatch:" + j, {"got_vertices": vb, "loops": ref.loops}
+    want_e = [ref.eid[_norm(vb[i], vb[(i + 1) % len(vb)])] for i in range(len(vb))]
+    if eb != want_e:
+        return "mismatch:edge_list", {"got_vertices": vb, "got_edges": eb, "want_edges": want_e}
+    return None
+
+
+def _verdict_all(o, ref):
+    if not o.ok:
+        return exc_kind(o), {"msg": o.msg}
+    got = [_as_int_list(c) for c in o.value]
+    hit = []
+    for c in got:
+        j = _judge_walk(c, None, ref.loop_of, ref.loops, ref.bedges)
+        if j:
+            return "mismatch:loop_not_a_border_walk", {"got": got, "bad_cycle": c, "why": j, "want_loops": ref.loops}
+        hit.append(ref.loop_of[c[0]])
+    if len(set(hit)) != len(hit):
+        return "mismatch:loop_repeated", {"got": got, "want_loops": ref.loops}
+    if len(got) != len(ref.loops):
+        return "mismatch:loop_count", {"got": got, "want_loops": ref.loops}
+    return None
+
+
+def _verdict_polyline(o, m, ref, rep):
+    if not o.ok:
+        return exc_kind(o), {"msg": o.msg}
+    j = call(_judge_polyline, o.value, m, ref.bverts, ref.bedges, rep)
+    v = j.value if j.ok else ("result_shape", {"got": repr(o.value)[:300], "reading_it_raised": f"{j.exc}: {j.msg}"})
+    return None if v is None else ("mismatch:" + v[0], v[1])
+
+
+def _cached_lists(m, ref, snap):
+    """None | name of the first border/interior container of the mesh (or element array) that is not what it was."""
+    if sorted(int(v) for v in m.boundary_vertices) != ref.bverts:
+        return "boundary_vertices"
+    if sorted(int(v) for v in m.interior_vertices) != ref.interior:
+        return "interior_vertices"
+    if sorted(int(e) for e in m.boundary_edges) != ref.bedge_ids:
+        return "boundary_edges"
+    if sorted(int(e) for e in m.interior_edges) != ref.iedge_ids:
+        return "interior_edges"
+    if any(bool(m.is_vertex_on_border(v)) != (v in ref.loop_of) for v in range(len(snap[0]))):
+        return "is_vertex_on_border"
+    if _snapshot(m) != snap:
+        return "mesh_elements"
+    return None
+
+
+def _snapshot(m):
+    return ([tuple(float(x) for x in p) for p in m.vertices], [tuple(int(x) for x in e) for e in m.edges],
+            [tuple(int(x) for x in f) for f in m.faces])
+
+
+def _check_border_history(M, name, n, pts, faces, sort, rep: Report):
+    """Clause 'border extraction is a pure query': every ordered pair (a, b) of the four entry points, played as the
+    history a, b, a, b on ONE mesh object; every answer must be what the statement says about the face list, and
+    the border / interior containers of the mesh must still describe it after every call. Only what differs from the
+    answer of the same entry point on a fresh mesh is reported here (that answer is the subject of the base clauses).
+    Clause 'all starting points' x argument form: every border vertex given as every kind of integer object."""
+    from mouette.processing import extract_border_cycle, extract_border_cycle_all, extract_boundary_of_surface
+    P = pts if pts is not None else F.moment_curve(n)
+    build = lambda: F.build_surface(P, faces)
+    m = build()
+    E = [tuple(int(x) for x in e) for e in m.edges]
+    if sorted(E) != sorted(F.undirected_edges(faces)):
+        rep.count("premise_failed"); rep.notes.append(f"{name}: mesh.edges differs from the sides of the faces")
+        return
+    ref = _BorderRef(n, faces, E)
+    snap = _snapshot(m)
+    base = {"mesh": name, "points": "moment_curve" if pts is None else P, "faces": faces, "sort": sort}
+    o = call(_cached_lists, m, ref, snap)
+    if not o.ok or o.value is not None:
+        rep.count("history:premise_border_containers_of_a_fresh_mesh"); return     # C01/C02's subject
+    start = ref.loops[-1][-1] if ref.loops else None
+    events = [e for e in EVENTS if e != "cycle_start" or start is not None]
+
+    def play(ev, mesh):
+        if ev == "cycle_default":
+            return _verdict_cycle(call(extract_border_cycle, mesh), None, ref)
+        if ev == "cycle_start":
+            return _verdict_cycle(call(extract_border_cycle, mesh, start), start, ref)
+        if ev == "cycle_all":
+            return _verdict_all(call(extract_border_cycle_all, mesh), ref)
+        return _verdict_polyline(call(extract_boundary_of_surface, mesh), mesh, ref, rep)
+
+    fresh = {}
+    for ev in events:
+        v = play(ev, build())
+        fresh[ev] = v[0] if v else None
+        rep.transitions += 1
+    # ---- histories
+    for a in events:
+        for b in events:
+            mesh = build()
+            prev = "nothing"
+            hist = []
+            for k, ev in enumerate((a, b, a, b)):
+                v = play(ev, mesh)
+                hist.append(ev)
+                rep.transitions += 1; rep.evaluations += 1
+                rep.outcome("history:" + ev, v[0] if v else "ok")
+                if v is not None:
+                    if v[0] != fresh[ev]:
+                        rep.violation("C15.border.history." + ("cycle" if ev.startswith("cycle_") and ev != "cycle_all" else ev),
+                                      _CALLEE[ev], v[0], f"after={prev}",
+                                      {**base, "history_on_one_mesh_object": hist, "start": start, **v[1]})
+                    else:
+                        rep.count("history:same_as_on_a_fresh_mesh")
+                    break
+                c = call(_cached_lists, mesh, ref, snap)
+                rep.evaluations += 1
+                if not c.ok or c.value is not None:
+                    what = c.value if c.ok else "reading_raises:" + c.exc
+                    rep.violation("C15.border.history.mesh_unchanged", _CALLEE[ev], "side_effect:" + what,
+                                  "first_call_of_the_entry_point" if ev not in hist[:-1] else "repeated_call_of_the_entry_point",
+                                  {**base, "history_on_one_mesh_object": hist, "start": start,
+                                   "boundary_vertices_now": call(lambda: [int(v) for v in mesh.boundary_vertices]).value,
+                                   "want_boundary_vertices": ref.bverts})
+                    break
+                prev = ev
+            rep.traces += 1; rep.states += 1
+            rep.case(("hist", n, tuple(map(tuple, faces)), sort, a, b))
+    rep.count("history_meshes")
+    rep.flag(f"history:loops={min(len(ref.loops), 3)}")
+    # ---- argument forms of the starting point
+    mesh = build()
+    for s in ref.bverts:
+        v0 = _verdict_cycle(call(extract_border_cycle, mesh, s), s, ref)
+        rep.transitions += 1
+        for form in START_FORMS:
+            x = _make_start(form, s)
+            v = _verdict_cycle(call(extract_border_cycle, mesh, x), s, ref)
+            rep.transitions += 1; rep.evaluations += 1
+            rep.outcome("start_form:" + form, v[0] if v else "ok")
+            rep.case(("form", n, tuple(map(tuple, faces)), sort, s, form))
+            if v is not None and (v0 is None or v[0] != v0[0]):
+                rep.violation("C15.border.start_form.cycle", "extract_border_cycle", v[0], "start_form=" + _form_class(x),
+                              {**base, "start": s, "start_given_as": form, **v[1]})
+            if s != ref.bverts[0] and len(ref.loops) > 1 and ref.loop_of[s] != ref.loop_of[ref.bverts[0]]:
+                rep.flag("start_form:start_on_another_loop_than_the_default")
+    c = call(_cached_lists, mesh, ref, snap)
+    if not c.ok or c.value is not None:
+        rep.violation("C15.border.history.mesh_unchanged", "extract_border_cycle",
+                      "side_effect:" + (c.value if c.ok else "reading_raises:" + c.exc), "repeated_call_of_the_entry_point", {**base})
+
+
 # ========================================================================================== features
 def _declare(M, pts, faces, und, mode, sel):
     """Build the mesh and declare hard edges. Returns (mesh, declared set of sorted pairs, explicit_false set)."""
@@ -491,11 +758,17 @@ def _check_detector(rep: Report, det, m, orc, cx, phase, baseline):
             return text
         return text + ":" + phase
 
+    only_new = bool(getattr(cx, "only_new", False))      # re-use clauses: report only what a fresh detector gets right
+    prefix = getattr(cx, "prefix", "")
+
     def bad(sub, callee, kind, icls, key, detail):
         if phase == "once":
             baseline.add(key)
-        rep.violation("C15.features." + sub, callee, kind, cls(key, icls),
-                      {**cx.base, "phase": phase, **detail})
+        if only_new and key in baseline:
+            rep.count("reuse:same_as_a_fresh_detector"); return
+        # re-use clauses: the class is the relation between the two surfaces, not the kind of edge / vertex
+        rep.violation("C15.features." + prefix + sub, callee, kind, cx.reuse_class if only_new else cls(key, icls),
+                      {**cx.base, "phase": phase, **({"class_of_base_clause": icls} if only_new else {}), **detail})
 
     # ---- clause 1: the edge set
     try:
@@ -596,7 +869,8 @@ def _check_detector(rep: Report, det, m, orc, cx, phase, baseline):
                         break
                 elif g != 0:
                     rep.evaluations += 1
-                    baseline.add(("cor", "stale"))     # class = previous state of the mesh, not the phase
+                    if not only_new:
+                        baseline.add(("cor", "stale"))     # class = previous state of the mesh, not the phase
                     bad("corners.non_feature_vertices", "FeatureEdgeDetector.corners", "mismatch:corner_on_non_feature_vertex",
                         f"previous={cx.base['previous']}:only_border={ob}", ("cor", "stale"),
                         {"vertex": v, "got": g, "feature_vertices": sorted(fv)})
@@ -686,18 +960,115 @@ def _run_features(M, task, rep: Report):
         _run_feature_mesh(M, rep, task, name, pts, faces, orc, und)
 
 
+def _run_feature_reuse(M, task, rep: Report):
+    """Clause 'a detector describes the surface it is run on': ONE FeatureEdgeDetector object run on surface A and then
+    on surface B, for every ordered pair (A, B) of the task's surfaces - B another mesh object ('other_mesh'), or, when
+    both have the same face list, the SAME mesh object whose vertices were moved from A's to B's positions through the
+    public container API ('deformed_mesh'). All clauses are evaluated on the second run against the exact reference of
+    B; only what a fresh detector on a fresh B gets right is reported here (the rest belongs to the base clauses)."""
+    from mouette.processing import FeatureEdgeDetector
+    sort = bool(task["sort"])
+    prepared = []
+    for name, pts, faces in task["meshes"]:
+        faces = [tuple(f) for f in faces]
+        if not F.is_oriented_manifold(faces, len(pts)):
+            rep.count("premise_failed"); rep.notes.append(f"{name}: not an oriented manifold"); continue
+        orc = L.FeatureOracle(pts, faces)
+        if not orc.usable:
+            rep.count("skipped_nonplanar_or_degenerate_faces"); continue
+        prepared.append((name, pts, faces, orc, list(orc.edges)))
+    for i, (nA, pA, fA, oA, uA) in enumerate(prepared):
+        for j, (nB, pB, fB, oB, uB) in enumerate(prepared):
+            if i == j:
+                continue
+            same_topology = fA == fB and len(pA) == len(pB)
+            # the two surfaces must differ in what the statement says about them, or the pair shows nothing
+            differs = (not same_topology) or any(oA.band[e] != oB.band[e] for e in oA.edges)
+            for how in (("other_mesh", "deformed_mesh") if same_topology else ("other_mesh",)):
+                for mode, sel in task["decls"]:
+                    for opts in task["opts"]:
+                        ob, fc, co = bool(opts[0]), bool(opts[1]), int(opts[2])
+                        phase = "reused_detector:" + how
+                        cx = _Ctx()
+                        cx.opts, cx.sort, cx.family = (ob, fc, co), sort, task["family"]
+                        cx.base = {"first_surface": {"mesh": nA, "points": pA, "faces": fA}, "reuse": how,
+                                   "mesh": nB, "points": pB, "faces": fB, "hard_edges": [mode, sel], "sort": sort,
+                                   "options": {"only_border": ob, "flag_corners": fc, "corner_order": co}, "previous": None}
+                        mk = lambda: FeatureEdgeDetector(only_border=ob, flag_corners=fc, corner_order=co,
+                                                         compute_feature_graph=(co != 6), verbose=False)
+                        # -- what a fresh detector answers on a fresh B (not reported here)
+                        o = call(_declare, M, pB, fB, uB, mode, sel)
+                        if not o.ok:
+                            rep.count("reuse:declaration_raised"); continue
+                        mB, cx.declared, cx.false_set = o.value
+                        cx.E = [tuple(int(x) for x in e) for e in mB.edges]
+                        cx.eid = {e: k for k, e in enumerate(cx.E)}
+                        if sorted(cx.E) != uB:
+                            rep.count("premise_failed"); continue
+                        baseline, scratch = set(), Report()
+                        det0 = mk()
+                        r0 = call(det0.run, mB)
+                        if r0.ok:
+                            c0 = call(_check_detector, scratch, det0, mB, oB, cx, "once", baseline)
+                            if not c0.ok:
+                                baseline.add(("containers", c0.exc))
+                        else:
+                            baseline.add(("run", r0.exc))
+                        # -- the re-used detector
+                        det = mk()
+                        o = call(_declare, M, pA, fA, uA, mode, sel)
+                        if not o.ok:
+                            rep.count("reuse:declaration_raised"); continue
+                        mA = o.value[0]
+                        r1 = call(det.run, mA)
+                        rep.transitions += 1
+                        if not r1.ok:
+                            rep.count("reuse:first_run_raised"); continue      # reported by the base clauses
+                        if how == "deformed_mesh":
+                            for k, p in enumerate(pB):
+                                mA.vertices[k] = M.Vec(float(p[0]), float(p[1]), float(p[2]))
+                            target = mA
+                            if [tuple(int(x) for x in e) for e in target.edges] != cx.E:
+                                rep.count("premise_failed"); continue
+                        else:
+                            target = _declare(M, pB, fB, uB, mode, sel)[0]
+                        r2 = call(det.run, target)
+                        rep.transitions += 1; rep.traces += 1; rep.states += 1
+                        rep.count("reuse_cases:" + how)
+                        if differs:
+                            rep.case(("reuse", nA, nB, how, mode, sel, ob, fc, co, sort))
+                        cx.reuse_class = how + (":same_faces" if same_topology else
+                                                (":more_faces" if len(fB) > len(fA) else ":fewer_or_as_many_faces"))
+                        rep.flag("reuse:" + cx.reuse_class)
+                        if not r2.ok:
+                            rep.outcome("reuse_run", r2.exc)
+                            if ("run", r2.exc) not in baseline:
+                                rep.violation("C15.features.reuse.run", "FeatureEdgeDetector.run", exc_kind(r2),
+                                              cx.reuse_class, {**cx.base, "phase": phase, "msg": r2.msg})
+                            continue
+                        rep.outcome("reuse_run", "ok")
+                        cx.only_new, cx.prefix = True, "reuse."
+                        c = call(_check_detector, rep, det, target, oB, cx, phase, baseline)
+                        if not c.ok and ("containers", c.exc) not in baseline:
+                            rep.violation("C15.features.reuse.containers", "FeatureEdgeDetector", "raises:" + c.exc,
+                                          cx.reuse_class, {**cx.base, "phase": phase, "msg": c.msg})
+
+
 # ========================================================================================== entry points
 def run_task(task, rep: Report):
     import mouette as M
     old = M.config.sort_neighborhoods
     M.config.sort_neighborhoods = bool(task["sort"])
     try:
-        if task["kind"] == "border":
+        if task["kind"] in ("border", "border_hist"):
+            fn = _check_border_mesh if task["kind"] == "border" else _check_border_history
             for name, n, pts, faces in task["meshes"]:
                 faces = [tuple(f) for f in faces]
                 if not F.is_oriented_manifold(faces, n):
                     rep.count("premise_failed"); rep.notes.append(f"{name}: not an oriented manifold"); continue
-                _check_border_mesh(M, name, n, pts, faces, bool(task["sort"]), rep)
+                fn(M, name, n, pts, faces, bool(task["sort"]), rep)
+        elif task["kind"] == "feat_reuse":
+            _run_feature_reuse(M, task, rep)
         else:
             _run_features(M, task, rep)
     finally:
@@ -734,6 +1105,26 @@ def finish(tier, rep: Report):
     for fl in ("feat:band:near37", "feat:band:near60"):
         if fl not in rep.flags:
             fails.append("coverage flag missing: " + fl)
+    # ---- histories on one mesh object / argument forms / re-used detectors
+    for fl in ("history:loops=0", "history:loops=1", "history:loops=2", "history:loops=3",
+               "start_form:start_on_another_loop_than_the_default", "reuse:deformed_mesh:same_faces",
+               "reuse:other_mesh:same_faces", "reuse:other_mesh:more_faces", "reuse:other_mesh:fewer_or_as_many_faces"):
+        if fl not in rep.flags:
+            fails.append("coverage flag missing: " + fl)
+    floors = {"quick": {"history_meshes": 418, "reuse_cases:other_mesh": 744, "reuse_cases:deformed_mesh": 264},
+              "thorough": {"history_meshes": 3404, "reuse_cases:other_mesh": 4320, "reuse_cases:deformed_mesh": 3312}}[tier]
+    for k, v in floors.items():
+        if rep.counters.get(k, 0) < v:
+            fails.append(f"{k}: {rep.counters.get(k, 0)} < pinned floor {v}")
+    for k in ("history:premise_border_containers_of_a_fresh_mesh", "reuse:declaration_raised", "reuse:first_run_raised"):
+        if rep.counters.get(k):
+            fails.append(f"{k}: {rep.counters[k]} inputs of the history / re-use clauses were skipped")
+    for ev in EVENTS:
+        if "history:" + ev not in rep.outcomes:
+            fails.append("entry point never played in a history: " + ev)
+    for form in START_FORMS:
+        if "start_form:" + form not in rep.outcomes:
+            fails.append("starting point never given as " + form)
     return fails
 
 
